@@ -38,6 +38,7 @@ theorem inv_step (c : Nat) (hist : List (Store × In)) (st : St) (db : Store) (i
     · simp [Inv]
     · cases key with
       | wrongLen n => simp [Inv]
+      | lowOrder => simp [Inv]
       | good e =>
         intro _
         exact ⟨e, ⟨hist, [], db, by simp, by simp⟩, rfl, rfl⟩
